@@ -114,10 +114,17 @@ fn limit_scenario(c: &mut Ctx) {
             let _ = b.add_op(op);
         }
         c.cx.eval();
+        let before_ops = a.ops().clone();
         let res = if verified { a.verified_merge(&b) } else { a.merge(&b) };
         c.cx.count("limit:merges");
         if res.is_ok() {
             c.closure(&a, if verified { "verified_merge" } else { "merge" });
+        } else {
+            c.cx.count("limit:merges-refused");
+            if *a.ops() != before_ops {
+                c.cx.violation("refused-merge-changed-replica", format!("a merge of {na} + {nb} operations was refused ({res:?}) yet the replica went from {} to {} operations", before_ops.len(), a.ops().len()), json!({"verified": verified}));
+            }
+            c.closure(&a, "refused merge");
         }
     }
     // overlapping replicas whose sizes sum to more than the limit while their union stays below it
@@ -426,6 +433,55 @@ impl Check for C06 {
             }
             if m(&a, &a).map(|aa| aa.ops() != a.ops()).unwrap_or(true) {
                 c.cx.violation("merge-not-idempotent", "A.merge(A) != A".to_string(), json!({}));
+            }
+        }
+        // ---- CRDT-level merge of replicas that hold operations without their predecessors (delivery gaps)
+        {
+            let mut chain: Vec<RegisterOp> = vec![];
+            let mut prev: Option<[u8; 32]> = None;
+            let n = c.cx.rng.gen_range(3..=7);
+            for i in 0..n {
+                // a chain v1 <- v2 <- ... with an occasional concurrent root
+                let children: BTreeSet<[u8; 32]> = match prev {
+                    Some(h) if !c.cx.rng.gen_bool(0.15) => [h].into_iter().collect(),
+                    _ => BTreeSet::new(),
+                };
+                let op = gen::reg_op(addr, vec![0xc0, i as u8, c.cx.rng.gen()], children, &owner);
+                prev = Some(gen::RawOp::from_op(&op).crdt_op.hash());
+                chain.push(op);
+            }
+            let subset = |c: &mut Ctx| -> Vec<RegisterOp> { chain.iter().filter(|_| c.cx.rng.gen_bool(0.55)).cloned().collect() };
+            let (sa, sb) = (subset(&mut c), subset(&mut c));
+            let build = |ops: &[RegisterOp]| {
+                let mut r = RegisterCrdt::new(addr);
+                for op in ops {
+                    let _ = r.apply_op(op.clone());
+                }
+                r
+            };
+            let (a, b) = (build(&sa), build(&sb));
+            let (mut ab, mut ba) = (a.clone(), b.clone());
+            ab.merge(b.clone());
+            ba.merge(a.clone());
+            let mut union: Vec<RegisterOp> = sa.clone();
+            for op in &sb {
+                if !union.contains(op) {
+                    union.push(op.clone());
+                }
+            }
+            let reference = build(&union);
+            c.cx.eval();
+            c.cx.count("crdt-gap-merges");
+            let gaps = union.len() < chain.len();
+            if gaps {
+                c.cx.count("crdt-gap-merges:with-missing-predecessors");
+            }
+            if ab.size() != reference.size() || ba.size() != reference.size() || ab.read() != reference.read() || ba.read() != reference.read() {
+                c.cx.violation(
+                    "crdt-merge-lost-or-diverged",
+                    format!("replicas holding {} and {} of {} chained operations: A.merge(B) has {} entries, B.merge(A) {}, applying the union directly gives {} (current values equal: {})", sa.len(), sb.len(), chain.len(), ab.size(), ba.size(), reference.size(), ab.read() == ba.read()),
+                    json!({"a": sa.len(), "b": sb.len(), "chain": chain.len()}),
+                );
             }
         }
         // ---- different base register
